@@ -757,3 +757,177 @@ def run_boundstale(prog, ctx=None):
                 res.ob("%s:%s" % (f.qn, norm(show(c, f))[:60]), ok, f, c.get("l", 0),
                        "" if ok else "bound test `%s` of this loop reads nothing the loop changes: it cannot end the loop once entered" % norm(show(c, f)))
     return res
+
+
+RELEASERS = ("free", "mpt_node_destroy")
+
+
+def run_uaf(prog, ctx=None):
+    """UAF: after free(x) / mpt_node_destroy(x) / x->_vptr->unref(x) the pointer x is not used again on any path unless reassigned"""
+    res = Result("UAF")
+    files = set(ctx.get("files", [])) if ctx else None
+    for f in funcs_of(prog, files):
+        rel = []
+        for b, i, e in f.elements():
+            if e.get("k") != "call":
+                continue
+            nm = callee_name(e)
+            args = e.get("args", [])
+            x = None
+            if nm in RELEASERS and args:
+                x = strip(args[0], all_casts=True)
+            elif nm is None and e.get("callee") is not None:
+                cal = strip(e["callee"], all_casts=True)
+                if cal.get("k") == "mem" and cal.get("f") == "unref" and args:
+                    x = strip(args[0], all_casts=True)
+            if x is not None and x.get("k") == "ref" and "id" in x["d"] and x["d"].get("dk") in ("local", "param"):
+                rel.append((b, i, e, x["d"]["id"], x["d"]["n"]))
+        if not rel:
+            continue
+        PK = Analysis.PK
+
+        def hook(an, b, i, el, st, rel=rel):
+            dead = set(st.get(PK) or ())
+            # reassignment revives
+            for n in walk_own(el):
+                if n.get("k") == "bin" and n.get("op") == "=":
+                    l = strip(n["a"], lvalue_to_rvalue=False)
+                    if l.get("k") == "ref":
+                        dead = {d for d in dead if d[0] != l["d"].get("id")}
+                elif n.get("k") == "decl":
+                    for v in n["vars"]:
+                        dead = {d for d in dead if d[0] != v["id"]}
+            for k, (rb, ri, re_, vid, nm) in enumerate(rel):
+                if el is re_:
+                    dead.add((vid, k))
+            st[PK] = frozenset(dead)
+
+        an = Analysis(prog, f, hook=hook)
+        st0 = an.entry_state()
+        st0[PK] = frozenset()
+        an.run(state=st0)
+        bad = {}
+        for (bid, idx), parts in an.pre_parts.items():
+            el = f.blocks[bid].el[idx]
+            for pk, st in parts.items():
+                if not pk or pk == "*":
+                    continue
+                deadv = {d[0]: d[1] for d in pk}
+                # the value of a released pointer may still be compared (slot lookups); only accesses and hand-offs count
+                cmp_only = set()
+                for n in walk_own(el):
+                    if (n.get("k") == "bin" and n.get("op") in ("==", "!=")) or (n.get("k") == "un" and n.get("op") == "!"):
+                        for side in ("a", "b", "e"):
+                            if side in n:
+                                x = strip(n[side], all_casts=True)
+                                if x.get("k") == "ref":
+                                    cmp_only.add(id(x))
+                for n in walk_own(el):
+                    if n.get("k") == "ref" and n["d"].get("id") in deadv and id(n) not in cmp_only:
+                        bad.setdefault(deadv[n["d"]["id"]], []).append((el, n))
+        # drop pure reassignments  x = ...
+        for k, (rb, ri, re_, vid, nm) in enumerate(rel):
+            uses = []
+            for el, n in bad.get(k, []):
+                if el.get("k") == "bin" and el.get("op") == "=" and strip(el["a"], lvalue_to_rvalue=False) is n:
+                    continue
+                tgt_only = False
+                for m in walk_own(el):
+                    if m.get("k") == "bin" and m.get("op") == "=" and strip(m["a"], lvalue_to_rvalue=False) is n:
+                        tgt_only = True
+                if not tgt_only:
+                    uses.append((el, n))
+            key = "%s:%s" % (f.qn, norm(show(re_, f))[:70])
+            ok = not uses
+            res.ob(key, ok, f, re_.get("l", 0),
+                   "" if ok else "%s is used at line %s (%s) after it was released here" % (nm, uses[0][0].get("l"), norm(show(uses[0][0], f))[:60]))
+    return res
+
+
+def run_allocpolarity(prog, ctx=None):
+    """ALLOCPOLARITY: for x = g(...) with g an in-repo function that returns NULL on failure: it is not the case that every
+    return reached while x is known non-null is a failure of the caller while a success is reachable with x known null"""
+    res = Result("ALLOCPOLARITY")
+    files = set(ctx.get("files", [])) if ctx else None
+    for f in funcs_of(prog, files):
+        RT = f.T(f.ret)
+        if RT.get("k") not in ("ptr", "int"):
+            continue
+        cands = {}
+        for b, i, n in f.walk_all():
+            if n.get("k") == "bin" and n.get("op") == "=":
+                r = strip(n["b"], all_casts=True)
+                l = strip(n["a"], lvalue_to_rvalue=False)
+                if r.get("k") == "call" and r.get("fn", {}).get("inroot") and f.T(r.get("t")).get("k") == "ptr":
+                    cs = prog.resolve_call(f, r)
+                    if not cs:
+                        continue
+                    # null-on-failure callee: has a `return 0`
+                    g = cs[0]
+                    if g.nocfg or not any(e.get("k") == "ret" and e.get("e") is not None and cval(e["e"]) == 0 for bb, ii, e in g.elements()):
+                        continue
+                    tgt = None
+                    if l.get("k") == "ref" and "id" in l["d"]:
+                        tgt = ("v", l["d"]["id"], l["d"]["n"])
+                    elif l.get("k") == "mem":
+                        tgt = ("m", norm(show(l, f)), norm(show(l, f)))
+                    if tgt:
+                        cands.setdefault(tgt, []).append((n, g))
+        for tgt, sites in cands.items():
+            if tgt[0] != "v":
+                # member targets (cpy->children = clone()): evaluate through a synthetic key on the assignment expression value
+                pass
+            PK = Analysis.PK
+            site_nodes = [s[0] for s in sites]
+
+            def classify(an, st):
+                if tgt[0] == "v":
+                    v = st.get(("v", tgt[1]))
+                else:
+                    v = st.get(("x", tgt[1]))
+                st[PK] = "?" if v is None else ("N" if (v.lo == 0 and v.hi == 0) else ("P" if v.lo > 0 else "?"))
+
+            def hook(an, b, i, el, st):
+                if tgt[0] == "m":
+                    for n in walk_own(el):
+                        if any(n is s for s in site_nodes):
+                            st[("x", tgt[1])] = AV(0, (1 << 64) - 1)
+                        elif n.get("k") == "bin" and n.get("op") == "=" and norm(show(strip(n["a"], lvalue_to_rvalue=False), f)) == tgt[1]:
+                            st.pop(("x", tgt[1]), None)
+                classify(an, st)
+
+            def edge_hook(an, b, cond, truth, st):
+                if tgt[0] == "m":
+                    c = strip(cond, all_casts=True)
+                    neg = False
+                    while c.get("k") == "un" and c.get("op") == "!":
+                        neg = not neg
+                        c = strip(c["e"], all_casts=True)
+                    if any((c.get("l") == s.get("l") and show(c, f) == show(s, f)) for s in site_nodes) or (c.get("k") == "mem" and norm(show(c, f)) == tgt[1]):
+                        nonnull = truth != neg
+                        st[("x", tgt[1])] = AV(1, (1 << 64) - 1) if nonnull else AV(0, 0)
+                classify(an, st)
+
+            an = Analysis(prog, f, hook=hook, edge_hook=edge_hook)
+            st0 = an.entry_state()
+            st0[PK] = "?"
+            an.run(state=st0)
+            cls = {"P": set(), "N": set()}
+            from .rules_effect import return_cases
+            for el, vexpr, pos, parts in return_cases(an, f):
+                for pk, st in parts:
+                    if pk not in cls:
+                        continue
+                    rv = an.ev(vexpr, dict(st), True, f.blocks[pos[0]].el[pos[1]])
+                    if RT.get("k") == "ptr":
+                        kind = "fail" if (rv.lo == 0 and rv.hi == 0) else "ok"
+                    else:
+                        kind = "fail" if rv.hi < 0 else "ok"
+                    cls[pk].add(kind)
+            for n, g in sites:
+                key = "%s:%s" % (f.qn, norm(show(n, f))[:80])
+                bad = cls["P"] == {"fail"} and "ok" in cls["N"]
+                res.ob(key, not bad, f, n.get("l", 0),
+                       "" if not bad else "when %s() succeeds every return of %s is a failure, when it fails %s can still succeed: the test of its result is inverted" % (g.qn, f.qn, f.qn),
+                       {"returns_when_nonnull": sorted(cls["P"]), "returns_when_null": sorted(cls["N"])})
+    return res
